@@ -742,7 +742,15 @@ def oracle_depth(case):
     out.sample = dict(view="depth", units=case["units"], text=text[:500])
     mc = case.get("mnemonic_case", "upper")
     out.cls("depth-mnemonic_case-" + mc)
-    las = attempt(lasio.read, io.StringIO(text), mnemonic_case=mc)
+    if case.get("reuse"):
+        # the LASFile has read a file in feet before: the index unit is that of the file read LAST
+        obj = attempt(lasio.read, "~V\nVERS. 2.0 : v\nWRAP. NO : w\n~W\nSTRT.FT 1 : s\nSTOP.FT 2 : s\nSTEP.FT 1 : s\nNULL. -999.25 : n\n~C\nDEPT.FT : d\n~A\n1\n2\n")
+        las = obj if is_raised(obj) else attempt(obj.read, io.StringIO(text), mnemonic_case=mc)
+        if not is_raised(las):
+            las = obj
+        out.cls("depth-second-read-into-the-same-object")
+    else:
+        las = attempt(lasio.read, io.StringIO(text), mnemonic_case=mc)
     if is_raised(las):
         out.rejected = True
         out.cls("rejected:" + las.bucket)
@@ -893,6 +901,8 @@ def depth_cases(draw):
     case = dict(view="depth", src="gen", units=units, index=idx, mnemonic_case=draw(st.sampled_from(["upper", "upper", "lower", "preserve"])))
     if LB.roll(draw, 4) == 0:
         case["pad"] = draw(st.sampled_from([" ", "  "]))
+    if LB.roll(draw, 5) == 0:
+        case["reuse"] = True
     return case
 
 
@@ -914,6 +924,7 @@ def depth_grid(tier):
         yield dict(view="depth", src="gen", units=["", "", "", s], index=idx)
         yield dict(view="depth", src="gen", units=[s, None, None, "unknown"], index=idx)
         yield dict(view="depth", src="gen", units=[s, s, s, ""], index=idx, mnemonic_case="lower")
+        yield dict(view="depth", src="gen", units=[s, s, s, s], index=idx, reuse=True)
     for f in FAMILIES:
         for g in FAMILIES:
             if f != g:
